@@ -20,6 +20,9 @@ class DosDateTime(datetime):
 
     def serialize_date(self) -> int:
         """Convert current datetime to FAT date."""
+        if not 1980 <= self.year <= 2107:
+            raise ValueError(f"Year {self.year} cannot be represented in the "
+                             f"DOS date format (1980-2107)")
         date = self.year - 1980 << 9 | self.month << 5 | self.day
         return date
 
